@@ -3,7 +3,7 @@
    Print Assumptions.  Model: Model/Pause.v (reader recvCheckV2+nextBuffer, gate checkStopAndPause
    +sendDataV2, one direction of a transfer).  All statements are for protocol >= 3 (cP3 cf = true):
    older protocols have no pause handling. *)
-From Trzsz Require Import Base.Bytes Gen.Consts Gen.Skel_pause Model.Pause Proofs.Pause.
+From Trzsz Require Import Base.Bytes Gen.Consts Gen.Skel_pause Model.Pause Proofs.Pause Proofs.PauseComp.
 From Coq Require Import ZArith.
 
 (* the source still has the control structure the model transcribes (regenerated on every run) *)
@@ -125,6 +125,38 @@ Theorem C18_reader_has_timer : forall (L : Type) (cls : L -> lclass) cf, cP3 cf 
   has_timer cf (tmo (core s)) /\ stopped (core s) = false /\ queue s = [].
 Proof. exact reader_has_timer. Qed.
 Print Assumptions C18_reader_has_timer.
+
+(* THE COMPOSITION (one direction of a transfer: our wire sender with its gate and the ack window W, our
+   ack reader, the peer's data reader with timeout T and its acker; line latency 0).  For EVERY schedule
+   of goroutine moves, ticks, pause requests and resumes -- a pause may begin before any move -- in which
+   an episode of pausing lasts at most P ticks and P + one sleep < T (a new pause begins at least one
+   sleep after the previous resume): no side reports an error (no timeout), the frames handed to the
+   peer are exactly 0,1,2,... in order (the sequence delivered without any pause), and whenever no
+   goroutine can move and no episode is open, all n frames are delivered and acknowledged.
+   PARTIAL: proved for the machine [astep] in which the two readers are replaced by what
+   C18_keepalive_ignored / C18_reader_no_false_timeout say about them (Model/Pause.v, section (c')). *)
+Theorem C18_short_pause_completes_partial : forall T' SL GL n W P,
+  (1 <= W)%nat -> (1 <= SL)%nat -> (1 <= GL)%nat -> (P + Nat.max SL GL < S T')%nat ->
+  forall xs a, arun (mkCfg (S T') SL GL true) n W P (ainit n) xs = Some a ->
+  xBad a = false /\ xDeliv a = seq 0 (length (xDeliv a)) /\ (length (xDeliv a) <= n)%nat /\
+  (x_quiescent n W a = true -> xEp a = EpNone -> xDeliv a = seq 0 n /\ xAcked a = n).
+Proof. exact short_pause_completes_abs. Qed.
+Print Assumptions C18_short_pause_completes_partial.
+
+(* the full statement: the same for [cstep], the composition that runs the reader machine [rstep] itself
+   on both sides.  Missing: the simulation lemma  crun xs = Some s -> arun xs = Some (abs_of s)  (it is
+   checked by differential execution of the two extracted machines, group "pausecomp") *)
+Definition C18_short_pause_completes_full : Prop := forall T' SL GL n W P,
+  (1 <= W)%nat -> (1 <= SL)%nat -> (1 <= GL)%nat -> (P + Nat.max SL GL < S T')%nat ->
+  forall xs s, crun (mkCfg (S T') SL GL true) n W P (cinit n) xs = Some s ->
+  cErrA s = false /\ cErrR s = false /\ cDeliv s = seq 0 (length (cDeliv s)) /\ (length (cDeliv s) <= n)%nat /\
+  (quiescent n W s = true -> cEp s = EpNone -> cDeliv s = seq 0 n /\ cAcked s = n).
+
+(* the real constants: 100 ms ticks, default Timeout 20 s, window kAckChanBufferSize: every pause of up
+   to 19.8 s *)
+Example C18_default_timeout_instance :
+  cfg_of 100 20 3 = mkCfg 200 1 1 true /\ N.to_nat pause_ack_window = 5%nat /\ (198 + Nat.max 1 1 < 200)%nat.
+Proof. vm_compute. repeat split; auto. Qed.
 
 (* non-vacuity: a reader that is reachable, blocked in a read, pausing; a keep-alive; a paused sender
    already past its check *)
